@@ -138,7 +138,14 @@ pub fn encode_case(c: &Value) -> Vec<u8> {
         if let Some(ents) = h.get("typed") {
             let list: Vec<(u32, u32, Value)> = ents.as_array().unwrap().iter()
                 .map(|e| (e["tag"].as_u64().unwrap() as u32, e["type"].as_u64().unwrap() as u32, e["v"].clone())).collect();
-            rawhdr::encode_wellformed(region, &list)
+            match h.get("dribble") {
+                Some(d) => {
+                    let dl: Vec<(u32, u32, Value)> = d.as_array().unwrap().iter()
+                        .map(|e| (e["tag"].as_u64().unwrap() as u32, e["type"].as_u64().unwrap() as u32, e["v"].clone())).collect();
+                    rawhdr::encode_dribble(region, &list, &dl)
+                }
+                None => rawhdr::encode_wellformed(region, &list),
+            }
         } else {
             let m = |k: &str, d: u8| h.get(k).and_then(|x| x.as_u64()).map(|x| x as u8).unwrap_or(d);
             let magic = [m("m0", 0x8e), m("m1", 0xad), m("m2", 0xe8), m("ver", 1)];
